@@ -1,12 +1,17 @@
 import TbbVerif.Core.Proto
 import TbbVerif.Model.C07
+import TbbVerif.Model.C07Life
+import TbbVerif.Model.C07Wrap
 
 open TbbVerif
 
 def drivers : List (String × Proto.Driver) := [
   ("c07buf", C07.driverBuf),
   ("c07pipe", C07.driverPipe),
-  ("c07run", C07.driverRun)
+  ("c07run", C07.driverRun),
+  ("c07life", C07.Life.driverLife),
+  ("c07liferun", C07.Life.driverLifeRun),
+  ("c07bufw", C07.Wrap.driverBufW)
 ]
 
 def main (args : List String) : IO UInt32 := Proto.mainOf drivers args
